@@ -140,6 +140,33 @@ func (r *Run) Check(ok bool, rule, key string, pos token.Pos, okWhy, badWhy stri
 
 func (r *Run) Infof(f string, args ...any) { r.Info = append(r.Info, fmt.Sprintf(f, args...)) }
 
+// verifDirGlobal: the verification directory (ref/ tables), for rule sets run through Import.
+var verifDirGlobal = "/verif"
+
+// importCache: one scratch ledger per imported property and process.
+var importCache = map[string]*Run{}
+
+// Import decides, under the own rule id alias, the obligations that rule srcRule of property srcProp raises on the
+// constructs selected by keep: a structural clause that is a necessary condition of both properties is decided once and
+// reported by both checks. The source rule set runs in a scratch ledger; nothing else of it is taken over.
+func (r *Run) Import(alias, desc string, floor int, srcProp, srcRule string, keep func(key string) bool) {
+	r.Rule(alias, desc+" (decided by rule "+srcRule+")", floor)
+	sub, ok := importCache[srcProp]
+	if !ok {
+		sub = NewRun(srcProp, r.Tier, r.P)
+		props[srcProp](sub, verifDirGlobal)
+		importCache[srcProp] = sub
+	}
+	for _, o := range sub.Obls {
+		if o.Rule != srcRule || (keep != nil && !keep(o.Key)) {
+			continue
+		}
+		c := *o
+		c.Rule = alias
+		r.Obls = append(r.Obls, &c)
+	}
+}
+
 func (p *Program) pos(pos token.Pos) string {
 	if !pos.IsValid() {
 		return "-"
@@ -613,4 +640,14 @@ func (r *Run) Finish(evidencePath, knownPath, outDir string, seed int) int {
 	_ = os.WriteFile(rp, b, 0o644)
 	fmt.Printf("VIOLATION property=%s replay=%s\n", r.Prop, rp)
 	return 1
+}
+
+// sizes: the type sizes of the load's target (amd64 unless GOARCH was overridden).
+func (p *Program) sizes() types.Sizes {
+	for _, pk := range p.Pkgs {
+		if pk.TypesSizes != nil {
+			return pk.TypesSizes
+		}
+	}
+	return types.SizesFor("gc", "amd64")
 }
